@@ -162,7 +162,7 @@ def run_tlc(module: str, cfg: str | None = None, env: dict | None = None, worker
             # 1xxx = general/evaluation errors
             if code not in (1000,):
                 r.errors.append(f"[{code}] {body[:2000]}")
-        if code == 2772:      # action coverage "<Name line ..>: distinct:generated"
+        if code in (2772, 2773):      # action coverage "<Name line ..>: distinct:generated"
             mm = re.match(r"<(\w+) line .*?>: (\d+):(\d+)", body)
             if mm:
                 r.coverage[mm.group(1)] = r.coverage.get(mm.group(1), 0) + int(mm.group(3))
